@@ -168,7 +168,7 @@ pub fn gen_mc_sys(ctx: &mut Context, rng: &mut Rng, cfg: &McCfg, stats: &mut Sta
     for (k, s) in state_syms.iter().enumerate() {
         let tpe = s.get_type(ctx);
         // counter pattern: deep counterexamples
-        if counter.is_none() && rng.chance(1, 4) {
+        if counter.is_none() && rng.chance(1, 2) {
             if let Type::BV(w) = tpe {
                 if w >= 2 {
                     let zero = ctx.bv_lit(&baa::BitVecValue::zero(w));
@@ -187,6 +187,18 @@ pub fn gen_mc_sys(ctx: &mut Context, rng: &mut Rng, cfg: &McCfg, stats: &mut Sta
                     features.push("counter");
                     continue;
                 }
+            }
+        }
+        // delay pattern: a 1-bit state latching a comparison of the counter (one more step of depth)
+        if let (Some((c, w)), Type::BV(1)) = (counter, tpe) {
+            if rng.chance(1, 3) {
+                let v = rng.range(1, (1u64 << w) - 1);
+                let lit = ctx.bv_lit(&baa::BitVecValue::from_u64(v, w));
+                let cmp = if rng.chance(1, 2) { ctx.equal(c, lit) } else { ctx.greater(c, lit) };
+                let init = if rng.chance(1, 2) { Some(ctx.get_false()) } else { None };
+                sys.add_state(ctx, State { symbol: *s, init, next: Some(cmp) });
+                features.push("delay-latch");
+                continue;
             }
         }
         let init = match rng.below(6) {
@@ -257,7 +269,7 @@ pub fn gen_mc_sys(ctx: &mut Context, rng: &mut Rng, cfg: &McCfg, stats: &mut Sta
                 features.push("bad-is-literal");
                 if rng.chance(1, 2) { ctx.get_true() } else { ctx.get_false() }
             }
-            3 | 4 | 5 if counter.is_some() => {
+            3..=8 if counter.is_some() => {
                 let (c, w) = counter.unwrap();
                 let v = rng.range(1, (1u64 << w) - 1);
                 let lit = ctx.bv_lit(&baa::BitVecValue::from_u64(v, w));
